@@ -44,3 +44,7 @@ func (a *Agent) VerifPeerfamRelayCount(p identity.AgentID) int {
 // VerifPeerfamWireFrames installs the agent's frame dispatcher on the peer
 // manager exactly as Start does, without starting listeners or servers.
 func (a *Agent) VerifPeerfamWireFrames() { a.peerMgr.SetFrameCallback(a.processFrame) }
+
+// VerifPeerfamEnterSleep runs the agent's real sleep-entry path (enterSleep:
+// disconnect all peers, close the listeners).
+func (a *Agent) VerifPeerfamEnterSleep() error { return a.enterSleep() }
